@@ -229,10 +229,12 @@ Definition replace_step (acc : lstate * Z) (nr : Z * rstat) : lstate * Z :=
   | Some o0 => (with_trade (fst acc) (fst nr) (replace_body (fst nr) o0 (snd nr)),
                 snd acc + match snd nr with RReport (CFailure _) _ => 1 | _ => 0 end)
   end.
-(* the handler zips the (VIOLATION-filtered) orders with the reports of the instructions that were SENT; the harness gives
-   the reports in instruction order, i.e. for the orders that were not EXECUTION_COMPLETE when the call was made *)
+(* replace_instructions skips the orders of the package that are already EXECUTION_COMPLETE; since the repair of F-C12-1 the handler
+   skips them too, so that each report meets the order its instruction was built for *)
+Definition pkg_sendable (s : lstate) (names : list Z) : list Z :=
+  filter (fun n => match oget n (ls_orders s) with Some o => negb (status_eqb (lo_status o) SExecComplete) | None => false end) (pkg_orders s names).
 Definition exec_replace (s : lstate) (names : list Z) (reports : list rstat) : lstate :=
-  let acc := fold_left replace_step (zip (pkg_orders s names) reports) (s, 0) in
+  let acc := fold_left replace_step (zip (pkg_sendable s names) reports) (s, 0) in
   add_tx (fst acc) (Z.of_nat (length (pkg_orders (fst acc) names))) (snd acc).
 
 (* exhausted retries / unknown API error: reset_orders *)
